@@ -22,7 +22,8 @@
 (* EXTENDS AtomGrid for resolution, prefix sums and the preset tables;     *)
 (* Tables_molgrid (generated): DefaultSize (Z -> number of points of the   *)
 (* default radial grid, from grid.utils), GridSizes (name -> size of the   *)
-(* radial grids of the replay pool), FanObs, tier bounds.                  *)
+(* radial grids of the replay pool), FanObs, tier bounds, Seed (VERIF_SEED  *)
+(* mod 1000: rotation seed, moved templates, extra exponent patterns).     *)
 (***************************************************************************)
 EXTENDS AtomGrid, Expr, Tables_molgrid
 
@@ -60,6 +61,41 @@ MoleculesTight == \E i \in 1..Len(Molecules) : \E a, b \in 1..Len(Molecules[i].z
                      a < b /\ QLe(Dist2(Molecules[i].xyz[a], Molecules[i].xyz[b]), <<9, 4>>)
 
 (***************************************************************************)
+(* Further molecules (audit round).                                        *)
+(* XMolecules: fan-out only - more than five atoms, repeated elements      *)
+(* interleaved with others (a per-atom list and a per-element dictionary   *)
+(* then disagree about who gets what unless they are read correctly).      *)
+(* MovedMolecules: every template moved rigidly (axis permutation, sign    *)
+(* flips, translation - all derived from Seed, exact in the rationals) and *)
+(* its atoms listed in reverse order; used by the end-to-end clause, which *)
+(* is quantified over all molecules, not over the templates as typed.      *)
+(* All molecules are addressed by their index in AllMolecules.             *)
+(***************************************************************************)
+XMolecules ==
+    << [name |-> "C2H6", z |-> <<1, 6, 1, 1, 6, 1, 1, 1>>,
+        xyz |-> <<R3(193, 0, -219), R3(0, 0, -145), R3(-97, 167, -219), R3(-97, -167, -219),
+                  R3(0, 0, 145), R3(-193, 0, 219), R3(97, 167, 219), R3(97, -167, 219)>>] >>
+AxisPerms == << <<1, 2, 3>>, <<2, 3, 1>>, <<3, 1, 2>>, <<2, 1, 3>>, <<1, 3, 2>>, <<3, 2, 1>> >>
+MoveShift == <<Q(((Seed * 37) % 61) - 30, 10), Q(((Seed * 91 + 17) % 61) - 30, 10), Q(((Seed * 53 + 5) % 61) - 30, 10)>>
+MoveSign == <<IF (Seed % 2) = 0 THEN -1 ELSE 1, IF ((Seed \div 2) % 2) = 0 THEN 1 ELSE -1, -1>>
+MovePoint(p_) == LET perm == AxisPerms[(Seed % 6) + 1]
+                 IN [a \in 1..3 |-> QAdd(QMul(QI(MoveSign[a]), p_[perm[a]]), MoveShift[a])]
+Moved(t_) == [name |-> t_.name \o "~", z |-> Reverse(t_.z), xyz |-> Reverse([k \in 1..Len(t_.xyz) |-> MovePoint(t_.xyz[k])])]
+MovedMolecules == [i \in 1..Len(Molecules) |-> Moved(Molecules[i])]
+AllMolecules == Molecules \o XMolecules \o MovedMolecules
+MovedIndex(i_) == Len(Molecules) + Len(XMolecules) + i_
+Separated(t_) == \A a \in 1..Len(t_.z) : \A b \in 1..Len(t_.z) : a < b => QLe(<<36, 25>>, Dist2(t_.xyz[a], t_.xyz[b]))
+\* a moved template is the template: same elements (reversed), same interatomic distances
+MovedRigid ==
+    \A i \in 1..Len(Molecules) :
+        LET t == Molecules[i]  u == MovedMolecules[i]  n == Len(t.z) IN
+        /\ Len(u.z) = n /\ Len(u.xyz) = n
+        /\ \A a \in 1..n : u.z[a] = t.z[n + 1 - a]
+        /\ \A a \in 1..n : \A b \in 1..n : QEq(Dist2(u.xyz[a], u.xyz[b]), Dist2(t.xyz[n + 1 - a], t.xyz[n + 1 - b]))
+MovedAdmissible == \A i \in 1..Len(MovedMolecules) : Len(MovedMolecules[i].z) \in 1..5 /\ Separated(MovedMolecules[i])
+XSeparated == \A i \in 1..Len(XMolecules) : Len(XMolecules[i].z) = Len(XMolecules[i].xyz) /\ Separated(XMolecules[i])
+
+(***************************************************************************)
 (* Part 1.  Fan-out.                                                       *)
 (* Option shapes:  one | list (per atom, by position) | dict (by atomic    *)
 (* number, written as a sequence of <<Z, value>>, Z increasing) | none     *)
@@ -83,8 +119,18 @@ RgridRef(o_, k_, z_) == IF o_.shape = "none" THEN <<"default", z_>> ELSE <<"give
 NShell(ref_) == IF ref_[1] = "default" THEN DefaultSize[ref_[2]] ELSE GridSizes[ref_[2]]
 
 \* the list of atomic constructions an option record stands for
+DefaultDegree == 50          \* documented default of MolGrid.from_pruned(..., d_sectors=50)
+\* from_pruned: which of the two sector arguments decides, and the per-sector values of atom k_
+\*   "d" / "s": only that argument given;  "both": d_sectors (o_.dsect) AND s_sectors (o_.sect) given -
+\*   the documentation says s_sectors is used;  "default": neither given - d_sectors defaults to DefaultDegree
+PrunedKind(o_) == CASE o_.sect_kind = "both" -> "s" [] o_.sect_kind = "default" -> "d" [] OTHER -> o_.sect_kind
+PrunedVals(o_, k_) ==
+    LET n == Len(o_.r_sectors[k_]) + 1 IN
+    CASE o_.sect_kind = "default" -> ConstSeq(n, DefaultDegree)
+      [] o_.sect.shape = "one" -> ConstSeq(n, o_.sect.v)
+      [] OTHER -> o_.sect.v[k_]
 FanOut(o_) ==
-    LET zs == Molecules[o_.mol].z IN
+    LET zs == AllMolecules[o_.mol].z IN
     [k \in 1..Len(zs) |->
         CASE o_.ctor = "from_size" ->
                 [fn |-> "AtomGrid", rgrid |-> RgridRef(o_.rgrid, k, zs[k]), sizes |-> <<o_.size>>,
@@ -94,22 +140,36 @@ FanOut(o_) ==
                  rgrid |-> RgridRef(o_.rgrid, k, zs[k]), centre |-> k, rotate |-> o_.rotate]
           [] o_.ctor = "from_pruned" ->
                 LET secs == o_.r_sectors[k]
-                    vals == IF o_.sect.shape = "one" THEN ConstSeq(Len(secs) + 1, o_.sect.v) ELSE o_.sect.v[k]
+                    vals == PrunedVals(o_, k)
                 IN [fn |-> "from_pruned", rgrid |-> RgridRef(o_.rgrid, k, zs[k]), radius |-> Pick(o_.radius, k, zs[k]),
-                    r_sectors |-> secs, kind |-> o_.sect_kind, sect |-> vals, centre |-> k, rotate |-> o_.rotate]]
+                    r_sectors |-> secs, kind |-> PrunedKind(o_), sect |-> vals, centre |-> k, rotate |-> o_.rotate]
+          \* the plain constructor MolGrid(atnums, atgrids, aim): the atomic grids are the arguments themselves
+          \* (per-atom radial grid, per-shell degrees or one degree for all shells, per-atom rotation seed)
+          [] o_.ctor = "direct" ->
+                [fn |-> "AtomGridDeg", rgrid |-> <<"given", o_.atoms[k].rgrid>>, degrees |-> o_.atoms[k].degrees,
+                 centre |-> k, rotate |-> o_.atoms[k].rotate]]
+SectDefined(so_, rs_, zs_) ==
+    so_.shape = "list" => Len(so_.v) = Len(zs_) /\ \A k \in 1..Len(zs_) : Len(so_.v[k]) = Len(rs_[k]) + 1
 FanOutDefined(o_) ==
-    LET zs == Molecules[o_.mol].z IN
+    LET zs == AllMolecules[o_.mol].z IN
+    IF o_.ctor = "direct"
+    THEN /\ Len(o_.atoms) = Len(zs)
+         /\ \A k \in 1..Len(zs) : /\ o_.atoms[k].rgrid \in DOMAIN GridSizes
+                                   /\ Len(o_.atoms[k].degrees) \in {1, GridSizes[o_.atoms[k].rgrid]}
+                                   /\ \A j \in 1..Len(o_.atoms[k].degrees) : DegOk("lebedev", o_.atoms[k].degrees[j])
+    ELSE
     /\ Defined(o_.rgrid, zs)
     /\ (o_.ctor = "from_preset" => Defined(o_.preset, zs))
     /\ (o_.ctor = "from_pruned" =>
             /\ Defined(o_.radius, zs) /\ Len(o_.r_sectors) = Len(zs)
-            /\ (o_.sect.shape = "list" => Len(o_.sect.v) = Len(zs) /\ \A k \in 1..Len(zs) : Len(o_.sect.v[k]) = Len(o_.r_sectors[k]) + 1))
+            /\ (o_.sect_kind # "default" => o_.sect.shape \in {"one", "list"} /\ SectDefined(o_.sect, o_.r_sectors, zs))
+            /\ (o_.sect_kind = "both" => o_.dsect.shape \in {"one", "list"} /\ SectDefined(o_.dsect, o_.r_sectors, zs)))
 
 \* ---- the option space of the replay -------------------------------------------------------------
 FanMols == {1, 2, 4, 5, 6, 9}                     \* H (a single atom: no partner, callable weights still apply),                        \* H2 (equal elements), CO, H2O (repeated element), HCN (three elements),
                                                   \* CH4 (five atoms: the whole-grid Becke call is chunked from four atoms on)
 GridNames == <<"G1", "G2", "G3">>
-MolZs(m_) == Molecules[m_].z
+MolZs(m_) == AllMolecules[m_].z
 ZSet(m_) == {MolZs(m_)[k] : k \in 1..Len(MolZs(m_))}
 \* per-atom lists / per-element dictionaries that use DIFFERENT values for different atoms / elements
 ListOf(m_, vals_) == [k \in 1..Len(MolZs(m_)) |-> vals_[((k - 1) % Len(vals_)) + 1]]
@@ -142,22 +202,117 @@ FanOptionsOf(m_) ==
                   rgrid |-> g, rotate |-> r, store |-> st, aim |-> a] :
         rad \in RadiusOptions(m_), so \in SectOptions(m_, rs), g \in RgridOptions(m_), r \in RotateOptions,
         st \in StoreOptions, a \in {"becke"}} : rs \in SectorOptions(m_)}
-FanOptions(dummy_) == UNION {FanOptionsOf(m) : m \in FanMols}
+
+(***************************************************************************)
+(* Part 1x (audit round).  Dimensions the product above leaves out; each   *)
+(* is varied around three base combinations (star design, no product).     *)
+(*   aim      "array": the weights are handed over as an array (to every   *)
+(*            constructor); "callable" also through from_pruned            *)
+(*   sect_kind "both" (d_sectors and s_sectors given: s_sectors decides),  *)
+(*            "default" (neither given: DefaultDegree in every sector)     *)
+(*   dicts    with entries for elements that are not in the molecule,      *)
+(*            listed in decreasing Z (a dictionary is keyed, not ordered)  *)
+(*   rep      how the arguments are REPRESENTED: dtype of the atomic       *)
+(*            numbers, memory layout of the coordinates, Python or numpy   *)
+(*            scalars / lists or arrays for sizes, radii, sectors.  The    *)
+(*            fan-out does not depend on it (law RepInvisible).            *)
+(*   rotate   1 (smallest seed that rotates) and a Seed-dependent value    *)
+(*   direct   the plain constructor on hand-made atomic grids that differ  *)
+(*            per atom in radial grid, per-shell degrees and rotation seed *)
+(*   mol      the eight-atom XMolecules[1]                                 *)
+(* AimSpec: what the atom-in-molecule weights are for an option.           *)
+(***************************************************************************)
+BaseRep == [atnums |-> "int64", coords |-> "c", scal |-> "py"]
+RepsUsed == { [atnums |-> "int32", coords |-> "f", scal |-> "np"],
+              [atnums |-> "uint8", coords |-> "view", scal |-> "py"],
+              [atnums |-> "int64", coords |-> "c", scal |-> "np"],
+              [atnums |-> "int16", coords |-> "view", scal |-> "np"] }
+RotateX == 2 + ((Seed * 7919) % 99991)
+XFanMols == {1, 5, 9, Len(Molecules) + 1}
+XAims == {"becke", "callable", "array"}
+AimSpec(o_) == CASE o_.aim = "becke" -> [kind |-> "callable", what |-> "BeckeWeights", order |-> 3]
+                 [] o_.aim = "callable" -> [kind |-> "callable", what |-> "IntAim", order |-> 0]
+                 [] o_.aim = "array" -> [kind |-> "array", what |-> "IntAimValues", order |-> 0]
+DictXOf(m_, vals_) ==
+    LET zs == SetToSortSeq(ZSet(m_) \cup {3, 99}, LAMBDA a, b : a > b)
+    IN [i \in 1..Len(zs) |-> <<zs[i], vals_[(zs[i] % Len(vals_)) + 1]>>]
+XSectors(m_) == ListOf(m_, << <<<<1, 2>>, <<1, 1>>>>, <<<<1, 1>>>>, <<>> >>)
+XBaseSize(m_) == [ctor |-> "from_size", mol |-> m_, size |-> 6, rgrid |-> One("G1"), rotate |-> 37, store |-> FALSE,
+                  aim |-> "becke", rep |-> BaseRep]
+XBasePreset(m_) == [ctor |-> "from_preset", mol |-> m_, preset |-> List(ListOf(m_, FanPresetNames)),
+                    rgrid |-> Dict(DictOf(m_, GridNames)), rotate |-> 37, store |-> FALSE, aim |-> "becke", rep |-> BaseRep]
+XBasePruned(m_) == [ctor |-> "from_pruned", mol |-> m_, radius |-> List(ListOf(m_, <<<<1, 1>>, <<2, 1>>, <<1, 2>>>>)),
+                    r_sectors |-> XSectors(m_), sect_kind |-> "d", sect |-> List(SectValues(m_, XSectors(m_), DegreeCycle)),
+                    dsect |-> None, rgrid |-> List(ListOf(m_, GridNames)), rotate |-> 37, store |-> FALSE, aim |-> "becke",
+                    rep |-> BaseRep]
+XBases(m_) == {XBaseSize(m_), XBasePreset(m_), XBasePruned(m_)}
+DirectAtoms(m_) ==
+    [k \in 1..Len(MolZs(m_)) |->
+        LET g == GridNames[(k % 3) + 1] IN
+        [rgrid |-> g,
+         degrees |-> IF (k % 2) = 1 THEN <<DegreeCycle[(k % 4) + 1]>> ELSE [j \in 1..GridSizes[g] |-> DegreeCycle[((j + k) % 4) + 1]],
+         rotate |-> (k - 1) * 5]]
+XAim(m_) ==
+    {[b EXCEPT !.aim = "array", !.store = st] : b \in {XBaseSize(m_), XBasePreset(m_)}, st \in BOOLEAN}
+    \cup {[XBasePruned(m_) EXCEPT !.aim = a, !.store = st, !.sect_kind = so.kind, !.sect = so.o] :
+            a \in {"array", "callable"}, st \in BOOLEAN, so \in SectOptions(m_, XSectors(m_))}
+XKinds(m_) ==
+    {[XBasePruned(m_) EXCEPT !.sect_kind = "both", !.sect = so, !.dsect = d, !.rgrid = g] :
+        so \in {One(26), List(SectValues(m_, XSectors(m_), SizeCycle))},
+        d \in {One(7), List(SectValues(m_, XSectors(m_), DegreeCycle))}, g \in {One("G2"), None}}
+    \cup {[XBasePruned(m_) EXCEPT !.sect_kind = "default", !.sect = None, !.radius = One(<<3, 2>>), !.rgrid = g] :
+        g \in {One("G2")} \cup (IF Len(MolZs(m_)) <= 3 THEN {None} ELSE {})}
+XDicts(m_) ==
+    {[XBasePreset(m_) EXCEPT !.preset = Dict(DictXOf(m_, FanPresetNames)), !.rgrid = Dict(DictXOf(m_, GridNames)), !.aim = a] :
+        a \in AimOptions}
+    \cup {[XBasePruned(m_) EXCEPT !.rgrid = Dict(DictXOf(m_, GridNames)), !.radius = rad] : rad \in RadiusOptions(m_)}
+XReps(m_) ==
+    {[b EXCEPT !.rep = r] :
+        b \in XBases(m_) \cup {[XBaseSize(m_) EXCEPT !.rgrid = None],
+                               [XBasePruned(m_) EXCEPT !.radius = One(<<3, 2>>), !.sect = One(7)],
+                               [XBasePruned(m_) EXCEPT !.radius = One(<<3, 2>>), !.sect_kind = "s", !.sect = One(26)]},
+        r \in RepsUsed}
+XRotate(m_) == {[b EXCEPT !.rotate = r] : b \in XBases(m_), r \in {1, RotateX}}
+\* a radius that is a whole number, handed over as a Python int
+XIntRadius(m_) == IF m_ \in {1, 5} THEN {[XBasePruned(m_) EXCEPT !.radius = One(<<2, 1>>), !.rep = [BaseRep EXCEPT !.scal = "int"]]} ELSE {}
+XDirect(m_) == {[ctor |-> "direct", mol |-> m_, atoms |-> DirectAtoms(m_), store |-> st, aim |-> a, rep |-> BaseRep] :
+                    st \in BOOLEAN, a \in XAims}
+FanOptionsX(m_) == XAim(m_) \cup XKinds(m_) \cup XDicts(m_) \cup XReps(m_) \cup XRotate(m_) \cup XIntRadius(m_) \cup XDirect(m_)
+FanOptionsAll(m_) == (IF m_ \in FanMols THEN FanOptionsOf(m_) ELSE {}) \cup (IF m_ \in XFanMols THEN FanOptionsX(m_) ELSE {})
+FanOptions(dummy_) == UNION {FanOptionsAll(m) : m \in FanMols \cup XFanMols}
+\* the representation of the arguments is not an argument; "both" means the sizes
+RepInvisible == \A m \in XFanMols : \A o \in FanOptionsX(m) : FanOut(o) = FanOut([o EXCEPT !.rep = BaseRep])
+BothMeansSizes == \A m \in XFanMols : \A o \in XKinds(m) :
+                      o.sect_kind = "both" => FanOut(o) = FanOut([o EXCEPT !.sect_kind = "s"])
+\* a dictionary with superfluous / reordered entries stands for the same constructions
+DictXMeansDict == \A m \in XFanMols : \A k \in 1..Len(MolZs(m)) :
+                      DictGet(DictXOf(m, GridNames), MolZs(m)[k]) = DictGet(DictOf(m, GridNames), MolZs(m)[k])
 
 \* what TLC expects of the integer observables of a fan-out replay:
 \* o = [ok, atom_sizes (sizes of the hand-built atomic grids), indices (of the convenience-built grid)]
 FanExpectedSizes(o_) ==
     LET calls == FanOut(o_) IN
-    [k \in 1..Len(calls) |-> IF calls[k].fn = "AtomGrid"
-                              THEN NShell(calls[k].rgrid) * SizeUp("lebedev", calls[k].sizes[1]) ELSE -1]
+    [k \in 1..Len(calls) |->
+        CASE calls[k].fn = "AtomGrid" -> NShell(calls[k].rgrid) * SizeUp("lebedev", calls[k].sizes[1])
+          [] calls[k].fn = "AtomGridDeg" ->       \* one degree for all shells, or one per shell; each rounded up to a shipped degree
+                LET n == NShell(calls[k].rgrid)
+                    d == calls[k].degrees
+                    dd == IF Len(d) = 1 THEN ConstSeq(n, d[1]) ELSE d
+                IN ISum([i \in 1..n |-> SizeOfDeg("lebedev", DegUp("lebedev", dd[i]))])
+          [] OTHER -> -1]
 
 (***************************************************************************)
 (* Part 2.  store flag.  Abstract values: "P" points, "A" atomic weights,  *)
 (* "W" = A o aim; <<x, i>> the segment of atom i.                          *)
 (***************************************************************************)
 NAtomsStore == 2
-Observers == {<<"points", 0>>, <<"weights", 0>>, <<"tables", 0>>, <<"integrate", 0>>}
-             \cup {<<"get_atomic_grid", i>> : i \in 1..NAtomsStore} \cup {<<"getitem", i>> : i \in 1..NAtomsStore}
+\* observers of a grid with n_ atoms.  get_atomic_grid_neg i: get_atomic_grid(-i) - documented to be rejected;
+\* get_atomic_grid_oob j: get_atomic_grid(n_ + j) - there is no such atom.  Whether the atomic grids are stored
+\* must not decide whether such a call is answered.
+ObserversOf(n_) == {<<"points", 0>>, <<"weights", 0>>, <<"tables", 0>>, <<"integrate", 0>>}
+                   \cup {<<"get_atomic_grid", i>> : i \in 1..n_} \cup {<<"getitem", i>> : i \in 1..n_}
+                   \cup {<<"get_atomic_grid_neg", i>> : i \in 1..n_} \cup {<<"get_atomic_grid_oob", j>> : j \in 0..1}
+Observers == ObserversOf(NAtomsStore)
 \* specification of each observer (independent of the flag by construction)
 SpecObs(ob_) ==
     CASE ob_[1] = "points" -> <<"P">>
@@ -166,6 +321,7 @@ SpecObs(ob_) ==
       [] ob_[1] = "integrate" -> <<"sum W f">>
       [] ob_[1] = "get_atomic_grid" -> [points |-> <<"P", ob_[2]>>, weights |-> <<"A", ob_[2]>>, centre |-> ob_[2]]
       [] ob_[1] = "getitem" -> [points |-> <<"P", ob_[2]>>, weights |-> <<"W", ob_[2]>>, centre |-> ob_[2]]
+      [] ob_[1] \in {"get_atomic_grid_neg", "get_atomic_grid_oob"} -> <<"raises">>
 \* model of the code
 CodeObs(store_, ob_) ==
     CASE ob_[1] = "getitem" ->
@@ -186,6 +342,10 @@ StoreInvisible ==
     (pc = "store" /\ cs # <<>>) =>
         (acc[1] = acc[2] /\ acc[1] = acc[3]) \/ PrintT(<<"STOREDIFF", cs[Len(cs)], acc>>)
 Behaviours(dummy_) == UNION {Tuples(Observers, n) : n \in 1..MaxHist}
+\* a second subject for the replay: three atoms with a repeated element, built by from_preset with per-atom
+\* presets, a per-element dictionary of radial grids, a Seed-dependent rotation and callable weights
+StoreSubject2 == [XBasePreset(5) EXCEPT !.aim = "callable", !.rotate = RotateX]
+Behaviours2(dummy_) == UNION {Tuples(ObserversOf(Len(MolZs(StoreSubject2.mol))), n) : n \in 1..2}
 
 (***************************************************************************)
 (* Part 3.  End-to-end obligations.                                        *)
@@ -196,6 +356,19 @@ GaussE == Mul(PowR(Div(V("alpha"), Pi), C(3, 2)), Exp(Neg(Mul(V("alpha"), V("r2"
 ExponentValues == <<<<3, 10>>, <<1, 1>>, <<3, 1>>, <<10, 1>>, <<30, 1>>>>
 \* pattern j: 1..5 all atoms the same exponent; 6..10 atom k gets exponent ((k + j) mod 5)
 Pattern(j_, natoms_) == [k \in 1..natoms_ |-> IF j_ <= 5 THEN ExponentValues[j_] ELSE ExponentValues[((k + j_) % 5) + 1]]
+\* patterns 11..NPatterns: exponents anywhere on the lattice 0.3, 0.4, ..., 30.0 (Seed-dependent, different per atom)
+NPatterns == 14
+SeedExponent(j_, k_) == Q(3 + ((Seed * 7919 + 104729 * j_ + 31337 * k_) % 298), 10)
+PatternX(j_, natoms_) == IF j_ <= 10 THEN Pattern(j_, natoms_) ELSE [k \in 1..natoms_ |-> SeedExponent(j_, k)]
+\* "any sum" includes the sums that populate ONE centre only: the single normalised Gaussian on atom k.
+\* Its exponent runs over the whole lattice 0.3, 0.4, ..., 30.0 (every tenth value on the three finest presets,
+\* whose grids are large); judged on the templates as typed (not on the moved copies: Seed-independent verdicts).
+SingleLattice(stride_) == [i \in 1..((297 \div stride_) + 1) |-> Q(3 + (i - 1) * stride_, 10)]
+SingleStride(preset_) == IF preset_ \in {"veryfine", "ultrafine", "insane"} THEN 10 ELSE 1
+SingleInRange == \A st \in {1, 10} : \A i \in DOMAIN SingleLattice(st) :
+                    QLe(<<3, 10>>, SingleLattice(st)[i]) /\ QLe(SingleLattice(st)[i], <<30, 1>>)
+ExponentsInRange == \A n \in 1..5 : \A j \in 1..NPatterns : \A k \in 1..n :
+                        QLe(<<3, 10>>, PatternX(j, n)[k]) /\ QLe(PatternX(j, n)[k], <<30, 1>>)
 PresetIndex(name_) == CHOOSE i \in 1..Len(Presets) : Presets[i].name = name_
 HasEntry(name_, z_) == \E j \in 1..Len(Presets[PresetIndex(name_)].entries) : Presets[PresetIndex(name_)].entries[j].z = z_
 EntryOf(name_, z_) == LET es == Presets[PresetIndex(name_)].entries IN es[CHOOSE j \in 1..Len(es) : es[j].z = z_]
@@ -210,6 +383,11 @@ E2EObligations(dummy_) ==
     {[preset |-> Presets[p].name, mol |-> m,
       constructible |-> \A k \in 1..Len(Molecules[m].z) : ConstructibleWithDefault(Presets[p].name, Molecules[m].z[k])] :
         p \in 1..Len(Presets), m \in 1..Len(Molecules)}
+\* the same obligations for the rigidly moved, reversed templates (mol = index in AllMolecules)
+E2EObligationsMoved(dummy_) ==
+    {[preset |-> Presets[p].name, mol |-> MovedIndex(m),
+      constructible |-> \A k \in 1..Len(Molecules[m].z) : ConstructibleWithDefault(Presets[p].name, Molecules[m].z[k])] :
+        p \in 1..Len(Presets), m \in 1..Len(Molecules)}
 \* at least the presets without prescribed radial size are constructible for every template (non-vacuity)
 E2ENonVacuous ==
     \A name \in {"coarse", "medium", "fine", "veryfine", "ultrafine", "insane"} :
@@ -219,16 +397,31 @@ MolLaws ==
     /\ Law("MoleculesAdmissible", MoleculesAdmissible)
     /\ Law("MoleculesTight", MoleculesTight)
     /\ Law("FanOutTotal", \A o \in FanOptions(0) : FanOutDefined(o))
+    /\ Law("MovedRigid", MovedRigid)
+    /\ Law("MovedAdmissible", MovedAdmissible)
+    /\ Law("XSeparated", XSeparated)
+    /\ Law("RepInvisible", RepInvisible)
+    /\ Law("BothMeansSizes", BothMeansSizes)
+    /\ Law("DictXMeansDict", DictXMeansDict)
+    /\ Law("ExponentsInRange", ExponentsInRange)
+    /\ Law("SingleInRange", SingleInRange)
+    /\ Law("StoreSubject2Defined", FanOutDefined(StoreSubject2))
     /\ Law("E2ENonVacuous", E2ENonVacuous)
 MolLawsHold == pc = "idle" => MolLaws
 MolEmitted ==
     pc = "idle" =>
-        /\ JsonSerialize("molgrid_fanout.json", SetToSeq({[opt |-> o, calls |-> FanOut(o)] : o \in FanOptions(0)}))
-        /\ JsonSerialize("molgrid_molecules.json", Molecules)
+        /\ JsonSerialize("molgrid_fanout.json", SetToSeq({[opt |-> o, calls |-> FanOut(o), aim |-> AimSpec(o)] : o \in FanOptions(0)}))
+        /\ JsonSerialize("molgrid_molecules.json", AllMolecules)
         /\ JsonSerialize("molgrid_behaviours.json", SetToSeq(Behaviours(0)))
+        /\ JsonSerialize("molgrid_behaviours2.json",
+                [subject |-> [opt |-> StoreSubject2, calls |-> FanOut(StoreSubject2), aim |-> AimSpec(StoreSubject2)],
+                 behaviours |-> SetToSeq(Behaviours2(0))])
         /\ JsonSerialize("molgrid_e2e.json",
-                [obligations |-> SetToSeq(E2EObligations(0)),
-                 patterns |-> [n \in 1..5 |-> [j \in 1..10 |-> Pattern(j, n)]],
+                [obligations |-> SetToSeq(E2EObligations(0) \cup E2EObligationsMoved(0)),
+                 patterns |-> [n \in 1..5 |-> [j \in 1..NPatterns |-> PatternX(j, n)]],
+                 single |-> [templates |-> Len(Molecules),
+                             lattice |-> [p \in 1..Len(Presets) |-> [preset |-> Presets[p].name,
+                                                                     exponents |-> SingleLattice(SingleStride(Presets[p].name))]]],
                  density |-> GaussE])
 
 (***************************************************************************)
@@ -249,11 +442,11 @@ FanPick ==
          /\ cs' = FanObs[k].opt /\ acc' = FanObs[k].o
     /\ pc' = "judge" /\ UNCHANGED step
 NextFan == FanPickBlock \/ FanPick
-FanIsOption == pc = "judge" => cs \in FanOptionsOf(cs.mol)
+FanIsOption == pc = "judge" => cs \in FanOptionsAll(cs.mol)
 FanConforms ==
     pc = "judge" =>
         \/ /\ acc.ok
-           /\ Len(acc.atom_sizes) = Len(Molecules[cs.mol].z)
+           /\ Len(acc.atom_sizes) = Len(AllMolecules[cs.mol].z)
            /\ acc.indices = PrefixSums(acc.atom_sizes)                     \* the index table
            /\ acc.size = ISum(acc.atom_sizes)
            /\ \A k \in 1..Len(acc.atom_sizes) :
